@@ -10,7 +10,7 @@
    absent (not admitted) — see notes/ALGO_design.md for the exact state. *)
 From Coq Require Import NArith List Bool.
 From CS Require Import Sx Str PathModel StateModel StateProofs ProvModel AlgoModel AlgoCheck AlgoProofs AlgoState AlgoProv AlgoInv AlgoInit AlgoQuiet AlgoIntake
-     AlgoSync AlgoLatest AlgoFinish AlgoSyncEntry AlgoStep AlgoUser AlgoCalls AlgoRun AlgoTotal AlgoSpec.
+     AlgoSync AlgoLatest AlgoFinish AlgoSyncEntry AlgoStep AlgoUser AlgoCalls AlgoRun AlgoTotal AlgoSpec AlgoProgress.
 Import ListNotations.
 Local Open Scope N_scope.
 
@@ -39,7 +39,8 @@ Theorem ALGO_inv_get_latest : forall evl g w e force sides w',
   InvP evl g w -> (2 <= e)%nat -> get_latest w e force sides = ROk w' ->
   InvP evl g w' /\ (forall sd0, prov_of w' sd0 = prov_of w sd0) /\
   (forall x sd0, x <> e -> getx w' x sd0 = getx w x sd0) /\ now (w_st w) <= now (w_st w') /\
-  (forall sd0, x_tfile (getx w' e sd0) = x_tfile (getx w e sd0)) /\ length (ents (w_st w')) = length (ents (w_st w)).
+  (forall sd0, x_tfile (getx w' e sd0) = x_tfile (getx w e sd0)) /\ length (ents (w_st w')) = length (ents (w_st w)) /\
+  (forall x, set_mem x (cset (w_st w)) = true -> set_mem x (cset (w_st w')) = true).
 Proof. exact get_latest_pres. Qed.
 Print Assumptions ALGO_inv_get_latest.
 
@@ -52,7 +53,8 @@ Theorem ALGO_inv_refresh_both : forall evl g w e w',
   (forall x sd0, x <> e -> getx w' x sd0 = getx w x sd0) /\
   (exists en en', nth_error (ents (w_st w)) e = Some en /\ nth_error (ents (w_st w')) e = Some en' /\ e_ign en' = e_ign en /\
                   maxchg en' <= N.max (maxchg en) (now (w_st w'))) /\
-  now (w_st w) <= now (w_st w').
+  now (w_st w) <= now (w_st w') /\
+  (forall en' sd, nth_error (ents (w_st w')) e = Some en' -> s_oid (gs en' sd) <> None -> ShapeS (gs en' sd)).
 Proof. exact get_latest_both. Qed.
 Print Assumptions ALGO_inv_refresh_both.
 
@@ -70,6 +72,7 @@ Print Assumptions ALGO_inv_clear_changed.
 Theorem ALGO_inv_finished : forall g w e en side w',
   Inv g w -> (2 <= e)%nat -> nth_error (ents (w_st w)) e = Some en ->
   (is_discarded (e_ign en) = false -> ReadyAll (real_evl w) w e en) ->
+  (is_discarded (e_ign en) = false -> forall sd0, s_oid (gs en sd0) <> None -> ShapeS (gs en sd0)) ->
   (forall k ob cs, s_oid (gs en side) = Some (ostr_k k) -> obj_at w side k = Some ob -> pd (real_evl w) side k = false ->
      freshP (gs en side) ob -> is_discarded (e_ign en) = false -> g_get k (g_of g side) = Some cs ->
      s_oid (gs en (negb side)) <> None /\ ProvModel.o_exists ob = true /\ s_hash (gs en side) = s_shash (gs en side)) ->
@@ -252,18 +255,43 @@ Theorem ALGO_quiescent_is_spec : forall used lvL lvR g w,
 Proof. exact quiescent_is_spec. Qed.
 Print Assumptions ALGO_quiescent_is_spec.
 
+(* ---- towards a step bound: no idle steps ---------------------------------------------------------------------- *)
+(* In every reachable world the change set is EXACTLY the set of entries that carry a change flag and an id (the
+   invariant now records exactness, not only completeness; StateModel's clause (iv) at full strength is refuted in
+   general - C11 - but holds on this fragment). *)
+Theorem ALGO_change_set_exact : forall t0 lg0 acts w e en,
+  lg0 <= t0 + 1 -> in_F1 (cfg_std 1) (history_of acts) = true ->
+  algo_run (world_init (cfg_std 1) t0 lg0) acts = ROk w -> nth_error (ents (w_st w)) e = Some en ->
+  (set_mem e (cset (w_st w)) = true <-> flagged en = true).
+Proof. exact algo_change_set_exact. Qed.
+Print Assumptions ALGO_change_set_exact.
+
+(* SyncManager.do is never idle while work is pending: with a non-empty change set, after the path-filling loop and the
+   clock tick of the step, the selection of SyncState.change (ageing 0) returns an entry - for every iteration order.
+   (With ALGO_quiescent_stable: an engine step does nothing iff there is nothing to do.)  The bound itself - a measure
+   that a fair round decreases - is NOT proved; see notes/ALGO_design.md section 7. *)
+Theorem ALGO_selection_not_idle : forall g w order w1,
+  Inv g w -> cset (w_st w) <> [] ->
+  fill_paths w (norm_order order (cset (w_st w))) = ROk w1 ->
+  pick (w_st (fst (tick w1))) (norm_order order (cset (w_st w))) (now (w_st w1) + 1000) <> None.
+Proof. exact selection_not_idle. Qed.
+Print Assumptions ALGO_selection_not_idle.
+
 (* ---- where the model can answer OutOfFragment ---------------------------------------------------------------- *)
 (* The theorems above are about runs on which the model answers ROk.  The model has 28 OutOfFragment codes plus the
    error results of the SyncState operations (assertion failures, KeyError ...).  On in-domain runs under ANY schedule
-   all but six are proved unreachable: an in-domain run either goes through or stops with a code of
-   [G_SYNC] = X_IRRELEVANT (translate() = None at the top of embrace_change), X_LEVEL + 3 (_get_parent_conflict found a
-   conflict), X_MISSING (handle_changed_is_missing), X_HASHDIFF_GONE (handle_hash_diff with the other side gone),
-   X_PEERS (check_disjoint_create found another entry on the translated path), X_DELETE_OTHER (delete_synced found another
-   entry on the path).  That these six never fire on in-domain runs is measured by the tie (0 answers on ~90 000 runs),
-   not proved.  Proved unreachable in particular: every SyncState assertion / KeyError / RecursionError, every refusal of
-   a provider call the engine issues - create (the translated path is free: user-made objects have pairwise different
-   names, [Uniq]), upload, delete, download -, hash_conflict, path_conflict, the split guard of bbf04b7/0292e7f,
-   CONFLICT and IRRELEVANT entries, events for the sync root. *)
+   all but FOUR are proved unreachable: an in-domain run either goes through or stops with a code of
+   [G_SYNC] = X_LEVEL + 3 (_get_parent_conflict found a conflict), X_MISSING (handle_changed_is_missing), X_PEERS
+   (check_disjoint_create found another entry on the translated path), X_DELETE_OTHER (delete_synced found another entry
+   on the path).  That these four never fire on in-domain runs is measured by the tie (0 answers on ~90 000 runs), not
+   proved: three of them depend on lookup_path, whose result lists are only characterised up to key-uniqueness of the
+   (path, id) index, which StateModel's index invariant does not state; X_MISSING needs finer clock clauses.  Proved
+   unreachable in particular: every SyncState assertion / KeyError / RecursionError, every refusal of a provider call
+   the engine issues - create (the translated path is free: user-made objects have pairwise different names, [Uniq]),
+   upload, delete, download -, translate() = None and handle_hash_diff with the other side gone (a side refreshed since
+   its entry last changed shows an existing object with its path or a gone one: clause [i_seen] of the invariant),
+   hash_conflict, path_conflict, the split guard of bbf04b7/0292e7f, CONFLICT and IRRELEVANT entries, events for the
+   sync root. *)
 Theorem ALGO_out_of_fragment_guards : forall t0 lg0 acts c,
   lg0 <= t0 + 1 -> in_F1 (cfg_std 1) (history_of acts) = true ->
   algo_run (world_init (cfg_std 1) t0 lg0) acts = OutOfFragment c -> In c G_SYNC.
